@@ -372,6 +372,8 @@ class SymStr(object):
 
     # ---- comparisons
     def eq_expr(self, o):
+        if isinstance(o, str) and any(ord(ch) > 255 for ch in o):
+            return False  # symbolic strings range over Latin-1 only (stated alphabet bound)
         o = SymStr.lift(o)
         m = min(self.cap, o.cap)
         cs = [z.eq_i(self.n, o.n), z.le(self.n, m)]
@@ -567,7 +569,7 @@ class SymStr(object):
             codes = tuple(cs.chars[: cs.n])
             pred = lambda c: z.in_set_c(c, codes)
         a, b = self._strip_bounds(pred, left, right)
-        return self.sub(a, b)
+        return self.sub(core.try_concretize(a), core.try_concretize(b))
 
     def strip(self, chars=None):
         return self._strip(chars, True, True)
